@@ -428,6 +428,40 @@ pub fn fsm_all(tier: Tier, depth: usize) -> Vec<Driver> {
     v
 }
 
+/// The same teardown states with two datagrams handed to the connection in one poll (a duplicated
+/// closing packet, an ACK right behind a FIN, ...): the packet behind the one that completes the
+/// close must not change the outcome.
+pub fn fsm_batch_all(tier: Tier, depth: usize) -> Vec<Driver> {
+    let def = WndSpec::Default;
+    let fin = |ack| Pkt::Fin { off: 0, ack };
+    let st = |ack| Pkt::State { ack, wnd: def, sack: SackSpec::None };
+    let mut v = vec![];
+    for mut d in fsm_all(tier, depth) {
+        if d.cfg.incoming {
+            continue;
+        }
+        d.name = d.name.replace("fsm-", "fsm-batch-");
+        d.cfg.peer_lens = vec![3];
+        d.alphabet = vec![
+            Act::Deliver2(fin(AckSpec::All), fin(AckSpec::All)),
+            Act::Deliver2(fin(AckSpec::All), st(AckSpec::All)),
+            Act::Deliver2(st(AckSpec::All), st(AckSpec::All)),
+            Act::Deliver2(st(AckSpec::All), fin(AckSpec::All)),
+            Act::Deliver2(Pkt::Data { off: 0, ack: AckSpec::All, wnd: def }, fin(AckSpec::All)),
+            state(AckSpec::All, def, SackSpec::None),
+            Act::Deliver(fin(AckSpec::Cur)),
+            Act::Write(5),
+            Act::Shutdown,
+            Act::DropReader,
+            Act::DropWriter,
+            Act::Read(64),
+            Act::Tick,
+        ];
+        v.push(d);
+    }
+    v
+}
+
 /// Nagle coalescing.
 pub fn nagle(tier: Tier, on: bool, depth: usize) -> Driver {
     let mut cfg = SoloCfg::tiny(MSS);
@@ -750,6 +784,7 @@ pub fn all_drivers(tier: Tier) -> Vec<Driver> {
     v.push(tx_window_mtu(tier, 6));
     v.push(tx_slowstart_mtu(tier, 6));
     v.extend(fsm_all(tier, 5));
+    v.extend(fsm_batch_all(tier, 4));
     v.push(nagle(tier, true, 6));
     v.push(nagle(tier, false, 6));
     for (i, m) in [(8usize, 8usize), (8, 32), (32, 8)] {
